@@ -274,23 +274,46 @@ def coq_finalize(c, states):
     return f"finalize_run {coq_config(c)} {coq_state(c, states[0])} {sts} {coq_state(c, states[-1])}"
 
 
-def compare_cond_plain(impl, model, rtol, where=""):
-    """(A, b, Q) plain form; compare entrywise relative to the matrix scale."""
+def compare_cond_plain(impl, model, rtol, where="", marg=None):
+    """(A, b, Q) plain form.  marg = (mean, cov) of the marginal the conditional maps INTO (its output space): the offset b
+    and the noise Q are differences of quantities of the size of that marginal's mean / covariance, so rounding noise is
+    measured against those."""
     out_w = 0.0
-    for name, mi, mm in zip(("A", "b", "Q"), impl, model):
-        mx = max([abs(float(x)) for r in mm for x in r] + [1e-300])
-        for i, (ri, rm) in enumerate(zip(mi, mm)):
-            for j, (a, b) in enumerate(zip(ri, rm)):
-                fb = float(b)
-                tol = rtol * (abs(fb) + 1e-3 * mx) + 1e-300
-                if not abs(a - fb) <= tol:
-                    return f"{where} cond.{name}[{i}][{j}]: implementation {a!r} vs model {fb!r} (scale {mx:.3g})", None
-                out_w = max(out_w, abs(a - fb) / tol * rtol)
+    A_i, b_i, Q_i = impl
+    A_m, b_m, Q_m = model
+    n = len(A_m)
+    if marg is not None:
+        mm, cm = marg
+        msc = [max([abs(float(x)) for x in row] + [0.0]) for row in mm]
+        sdm = [math.sqrt(max(float(cm[i][i]), 0.0)) for i in range(len(cm))]
+    else:
+        msc, sdm = [0.0] * n, [0.0] * n
+    sdq = [math.sqrt(max(float(Q_m[i][i]), 0.0)) for i in range(n)]
+    smax = max(sdm + sdq + [0.0])
+    mx = max([abs(float(x)) for r in A_m for x in r] + [1e-300])
+    for i, (ri, rm) in enumerate(zip(A_i, A_m)):
+        for j, (a, b) in enumerate(zip(ri, rm)):
+            fb = float(b)
+            tol = rtol * (abs(fb) + 1e-3 * mx) + 1e-300
+            if not abs(a - fb) <= tol:
+                return f"{where} cond.A[{i}][{j}]: implementation {a!r} vs model {fb!r} (scale {mx:.3g})", None
+            out_w = max(out_w, abs(a - fb) / tol * rtol)
+    mall = max(msc + [0.0])
+    for i, (ri, rm) in enumerate(zip(b_i, b_m)):
+        for j, (a, b) in enumerate(zip(ri, rm)):
+            fb = float(b)
+            tol = rtol * (abs(fb) + max(sdq[i], sdm[i] if i < len(sdm) else 0.0, 1e-7 * smax)) + 1e-9 * rtol / 1e-7 * (msc[i] if i < len(msc) else 0.0) \
+                + 1e-13 * mall + 1e-300
+            if not abs(a - fb) <= tol:
+                return f"{where} cond.b[{i}][{j}]: implementation {a!r} vs model {fb!r}", None
+    for i in range(n):
+        for j in range(n):
+            a, fb = Q_i[i][j], float(Q_m[i][j])
+            si = max(sdq[i], 1e-7 * smax)
+            sj = max(sdq[j], 1e-7 * smax)
+            pi = sdm[i] if i < len(sdm) else 0.0
+            pj = sdm[j] if j < len(sdm) else 0.0
+            tol = rtol * (si * sj + abs(fb)) + 1e-12 * max(pi, 1e-7 * smax) * max(pj, 1e-7 * smax) + 1e-300
+            if not abs(a - fb) <= tol:
+                return f"{where} cond.Q[{i}][{j}]: implementation {a!r} vs model {fb!r} (sd {si:.3g},{sj:.3g})", None
     return None, out_w
-
-
-def coq_spec_smooth(c, states):
-    grid = c["grid"]
-    dts = [grid[i + 1] - grid[i] for i in range(len(grid) - 1)]
-    sts = "[" + "; ".join(coq_state(c, e) for e in states[1:]) + "]"
-    return f"spec_smooth_run {coq_config(c)} {coq_state(c, states[0])} {sts} {lib.qclist(dts)}"
